@@ -69,6 +69,12 @@ CHECKS = {
  "C24": ("dbsim", "exploration", "deterministic simulation: every statement of seeded histories (incl. faulty and extreme-valued ones) under catch_unwind",
          "Panic monitor over all statements of the general history with extreme integer literals and arithmetic; harness build has overflow checks on, so unchecked arithmetic panics instead of wrapping.",
          "Stateful reading only; the space of all statements is not enumerated.", "6/C24"),
+ "C32": ("dbsim", "exploration", "deterministic simulation: views created inside seeded histories and kept while data changes; every outer query executed over the view, over the inlined derived table and over a CTE",
+         "After every step each view is queried through seeded outer queries (projection, pushed-down filters, aggregates, GROUP BY, DISTINCT, join with a base table) in three renderings - FROM view, FROM (defining query) AS v, WITH w AS (defining query) - which must agree bit-exactly; equality after each later write is what 'a view reflects the current contents' means here.",
+         "Sampling. Views expose two columns; definitions cover filtered projection, explicit column list, expression column, GROUP BY, two-table join, view over view, DISTINCT.", "6/C32"),
+ "C34": ("dbsim", "exploration", "deterministic simulation: seeded trigger sets (incl. failing bodies as injected faults) and DML histories; executable model of expected firings",
+         "Audit rows written by trigger bodies are compared, after every statement, with the firings the model derives from the rows the SUT's own SELECT reports as affected (once per row with OLD/NEW images, once per statement, WHEN and UPDATE OF gating); a trigger whose body fails must make the statement fail and leave target and audit tables unchanged.",
+         "Sampling. Triggers are created through CreateTriggerStmt values (the SQL text path cannot store an executable body). WHEN conditions and UPDATE OF lists are restricted to the unambiguous cases listed in the evidence.", "6/C34"),
 }
 
 def main():
